@@ -20,9 +20,38 @@
   fail, because go-codec's `Encoder` keeps its first error); `Close` of the
   Version-2 shapes PANICS (`checkEncryptBlockRead`: `isFinal && bufLen != 0`)
   when a failed `Write` left more than one block in the buffer.
+
+  "Returns an error" vs "panics" (audit finding 9): the model marks the places
+  where the real code panics by `some (.panic _)`; `≠ none` therefore reads
+  "returns an error OR PANICS".  The run-level theorems say which: the call
+  during which an underlying write fails RETURNS the writer's error
+  (`.ioError`: `C14_sender_run_fault_returns_io_error`); a `Write` never panics
+  (`C14_sender_write_error_kinds`); `Close` can panic only after an earlier call
+  has already returned an error (`C14_sender_close_panics_only_after_error`) —
+  the real code does so in exactly two situations: (1) `Close` of the Version-2
+  shapes (V2 `encryptStream`, V2 `signAttachedStream`, `signcryptSealStream`)
+  after a failed `Write` that left MORE than one block in the buffer
+  (`checkEncryptBlockRead` / `checkSignBlockRead`: `isFinal && bufLen != 0`,
+  reached before the dead encoder could return its error — notes/ext-b.md,
+  observation 1); (2) a SECOND `Close` of V2 encryption / V2 signing
+  (`assertEncodedChunkState`).  Version 1 returns the error in both.
+
+  The writer: the scripted `Wr` obeys io.Writer's contract — a `Write` that
+  takes fewer than `len(p)` bytes returns a non-nil error (a failing write may
+  take any part of the slice, Model/SenderStream.lean); a short write WITHOUT
+  error is excluded (go-codec and armor.go discard `n`: with such a writer
+  "Close nil ⇒ completely written" is false for the real code).
+
+  The GENERIC forms over `FltWriter wr flt` get their meaning from the
+  instance: `FltWriter.fail` only says `flt` does not go down (a writer that
+  remembers its error refuses later calls without any write below), so
+  "`flt` unchanged" means "saw no failing write" only for instances whose `flt`
+  counts the failed underlying writes — `Wr.faults` (`wr_write_faults`: +1 per
+  failing write) and `FArm` over `Wr` (`C14_armor_writer_reports`).
 -/
 import Saltpack.Proofs.SenderStreamInst
 import Saltpack.Proofs.SenderStreamArmor
+import Saltpack.Proofs.SenderStreamWhole
 
 namespace Saltpack.Props.C14
 open Saltpack Saltpack.Sender Saltpack.Proofs.SenderP
@@ -82,38 +111,56 @@ theorem C14_sender_write_after_fault {ω : Type} (wr : ω → Bytes → Bool × 
     obs (st.write wr cfg p).2.2.codec.w = obs st.codec.w :=
   (dead_write wr obs hw cfg hp st p (Or.inl hf)).1
 
-/-- `encryptStream` / `signcryptSealStream` (`hasErr`): the error of a failed
-    `Write` is returned by every later `Write`, which does nothing else -/
-theorem C14_sender_write_sticky {ω : Type} (wr : ω → Bytes → Bool × ω) (cfg : Cfg) (st : PSt ω) (p : Bytes) (e : Err)
+/-- `encryptStream` / `signcryptSealStream` (`hasErr`): a `Write` on a stream
+    whose `err` is set returns it and does nothing else.  (`_def`: this is the
+    first line of `Write` — `if es.err != nil { return 0, es.err }` — unfolded;
+    the substantive statements are the next two.) -/
+theorem C14_sender_write_sticky_def {ω : Type} (wr : ω → Bytes → Bool × ω) (cfg : Cfg) (st : PSt ω) (p : Bytes) (e : Err)
     (hh : cfg.hasErr = true) (he : st.err = some e) : st.write wr cfg p = (0, some e, st) := by
   unfold PSt.write
   simp [hh, he]
 
-/-- …and a failed `Write` of such a stream records its error -/
-theorem C14_sender_write_error_recorded {ω : Type} (wr : ω → Bytes → Bool × ω) (obs : ω → Bytes) (hw : ObsWriter wr obs)
-    (cfg : Cfg) (hp : ∀ b, (cfg.pieces b).flatten = b) (hb : 0 < cfg.bs) (hif : IndexFail cfg.pkt) (v : Version)
-    (hdr T : Bytes) (E : List Bytes) (st : PSt ω) (p : Bytes) (ha : AliveE obs cfg hdr T E st)
-    (hne : st.buf = [] → E = []) (hh : cfg.hasErr = true) (e : Err) (he : (st.write wr cfg p).2.1 = some e) :
-    (st.write wr cfg p).1 = 0 ∧ (st.write wr cfg p).2.2.err = some e := by
-  rcases alive_write wr obs hw cfg hp hb hif v hdr T E st p ha hne with ⟨_, h2, _⟩ | ⟨h1, e', h2, _, _, h5⟩
-  · rw [h2] at he; cases he
-  · rw [h2] at he; injection he with he; subst he
-    exact ⟨h1, h5 hh⟩
+/-- **a failed `Write` of such a stream returns `n = 0` and records its error —
+    in EVERY state `st`**, reachable or not (no ghost invariant: `Write` stores
+    whatever `encryptBlock` returned; a refused `Write` returns the stored error) -/
+theorem C14_sender_write_error_recorded {ω : Type} (wr : ω → Bytes → Bool × ω) (cfg : Cfg) (hh : cfg.hasErr = true)
+    (st : PSt ω) (p : Bytes) (e : Err) (he : (st.write wr cfg p).2.1 = some e) :
+    (st.write wr cfg p).1 = 0 ∧ (st.write wr cfg p).2.2.err = some e :=
+  write_err_recorded wr cfg hh st p e he
+
+/-- **sticky, run level, every state**: once a `Write` of such a stream has
+    returned an error `e`, every later `Write` — any number of them, any
+    arguments — returns `(0, e)` and changes nothing (not the buffer, not the
+    encoder, not the writer) -/
+theorem C14_sender_write_error_sticky_run {ω : Type} (wr : ω → Bytes → Bool × ω) (cfg : Cfg) (hh : cfg.hasErr = true)
+    (st : PSt ω) (p : Bytes) (e : Err) (he : (st.write wr cfg p).2.1 = some e) (ps : List Bytes) :
+    PSt.writes wr cfg (st.write wr cfg p).2.2 ps = (ps.map (fun _ => (0, some e)), (st.write wr cfg p).2.2) :=
+  write_error_sticky_run wr cfg hh st p e he ps
+
+/-- **a `Write` never fails with one of the stream's own panics**: in every
+    state whose stored error is nil, an error returned by `Write` is the
+    writer's or one the packet function returned (`ErrPacketOverflow`) -/
+theorem C14_sender_write_error_kinds {ω : Type} (wr : ω → Bytes → Bool × ω) (cfg : Cfg) (hb : 0 < cfg.bs)
+    (st : PSt ω) (p : Bytes) (e : Err) (hs : cfg.hasErr = true → st.err = none)
+    (he : (st.write wr cfg p).2.1 = some e) : e = .ioError ∨ ∃ i c f, cfg.pkt i c f = .error e :=
+  write_error_kinds wr cfg hb st p e hs he
 
 /-- **whole run, scripted writer: `Close` never reports success for a message
     that was not completely written** — if ANY underlying write failed, in the
     constructor, in any `Write` (whatever it returned, whether or not the caller
-    looked) or in `Close`, then the constructor failed or `Close` returns an
-    error -/
-theorem C14_sender_run_fault_reported (cfg : Cfg) (hp : ∀ b, (cfg.pieces b).flatten = b) (sink : Stream.Sink)
+    looked) or in `Close`, then the constructor failed or `Close` does not
+    return nil: it returns an error OR PANICS (`c.1 ≠ none` includes the model's
+    `.panic` marker; see the file header for when the real `Close` panics, and
+    the next theorem for the call that RETURNS the error) -/
+theorem C14_sender_run_fault_reported (cfg : Cfg) (hp : ∀ b, (cfg.pieces b).flatten = b) (sink : Stream.Sink) (part : List Nat)
     (headerBytes : Bytes) (ws : List Bytes) :
-    let i := PSt.init Wr.write cfg.pieces ({ sink := sink } : Wr) headerBytes
+    let i := PSt.init Wr.write cfg.pieces ({ sink := sink, part := part } : Wr) headerBytes
     let c := (PSt.writes Wr.write cfg i.2 ws).2.close Wr.write cfg
     c.2.codec.w.faults ≠ 0 → i.1 = false ∨ c.1 ≠ none := by
   intro i c hne
   by_cases hc : c.1 = none
   · left
-    have hi := faultSeen_init Wr.write Wr.faults wr_flt cfg.pieces ({ sink := sink } : Wr) headerBytes
+    have hi := faultSeen_init Wr.write Wr.faults wr_flt cfg.pieces ({ sink := sink, part := part } : Wr) headerBytes
     have hw := faultSeen_writes Wr.write Wr.faults wr_flt cfg 0 ws _ hi.1
     have hcl := close_flt Wr.write Wr.faults wr_flt cfg (PSt.writes Wr.write cfg i.2 ws).2
     have hsame := hcl.1 hc
@@ -121,6 +168,73 @@ theorem C14_sender_run_fault_reported (cfg : Cfg) (hp : ∀ b, (cfg.pieces b).fl
     have := (dead_close Wr.write Wr.bytes wr_obs cfg hp _ (Or.inl hfailed)).1
     exact absurd hc this
   · exact Or.inr hc
+
+/-- **the fault is RETURNED as an error by the call in which it happens** (no
+    panic marker involved): if any underlying write failed during the run, the
+    constructor failed, or some `Write` returned the writer's error, or `Close`
+    returned the writer's error -/
+theorem C14_sender_run_fault_returns_io_error (cfg : Cfg) (sink : Stream.Sink) (part : List Nat) (headerBytes : Bytes) (ws : List Bytes) :
+    let i := PSt.init Wr.write cfg.pieces ({ sink := sink, part := part } : Wr) headerBytes
+    let r := PSt.writes Wr.write cfg i.2 ws
+    let c := r.2.close Wr.write cfg
+    c.2.codec.w.faults ≠ 0 → i.1 = false ∨ (∃ x ∈ r.1, x.2 = some .ioError) ∨ c.1 = some .ioError := by
+  intro i r c hne
+  exact run_fault_io Wr.write Wr.faults wr_flt cfg ({ sink := sink, part := part } : Wr) headerBytes ws hne
+
+/-- …generic form (any fault-counting writer, see the header on `FltWriter`) -/
+theorem C14_sender_run_fault_returns_io_error_gen {ω : Type} (wr : ω → Bytes → Bool × ω) (flt : ω → Nat)
+    (hw : FltWriter wr flt) (cfg : Cfg) (w0 : ω) (headerBytes : Bytes) (ws : List Bytes) :
+    let i := PSt.init wr cfg.pieces w0 headerBytes
+    let r := PSt.writes wr cfg i.2 ws
+    let c := r.2.close wr cfg
+    flt c.2.codec.w ≠ flt w0 → i.1 = false ∨ (∃ x ∈ r.1, x.2 = some .ioError) ∨ c.1 = some .ioError := by
+  intro i r c hne
+  exact run_fault_io wr flt hw cfg w0 headerBytes ws hne
+
+/-- **`Close` returns nil ⇒ the constructor succeeded and EVERY earlier `Write`
+    returned nil** — whatever the caller did with the results -/
+theorem C14_sender_close_ok_all_writes_ok {ω : Type} (wr : ω → Bytes → Bool × ω) (obs : ω → Bytes) (hw : ObsWriter wr obs)
+    (cfg : Cfg) (hp : ∀ b, (cfg.pieces b).flatten = b) (hb : 0 < cfg.bs) (hif : IndexFail cfg.pkt)
+    (w0 : ω) (headerBytes : Bytes) (ws : List Bytes) :
+    let i := PSt.init wr cfg.pieces w0 headerBytes
+    let r := PSt.writes wr cfg i.2 ws
+    (r.2.close wr cfg).1 = none → i.1 = true ∧ ∀ x ∈ r.1, x.2 = none := by
+  intro i r hc
+  exact close_ok_all_ok wr obs hw cfg hp hb hif w0 headerBytes ws hc
+
+/-- **`Close` panics only after an earlier call has returned an error**: if
+    the packet function itself never answers with a panic marker (true of the
+    three instances for a known version), a `Close` that panics was preceded by
+    a failed constructor or a `Write` that returned an error -/
+theorem C14_sender_close_panics_only_after_error {ω : Type} (wr : ω → Bytes → Bool × ω) (obs : ω → Bytes)
+    (hw : ObsWriter wr obs) (cfg : Cfg) (hp : ∀ b, (cfg.pieces b).flatten = b) (hb : 0 < cfg.bs)
+    (hif : IndexFail cfg.pkt) (v : Version) (hv : cfg.v1shape = (v == v1))
+    (hnp : ∀ i c f s, cfg.pkt i c f ≠ .error (.panic s)) (w0 : ω) (headerBytes : Bytes) (ws : List Bytes) (s : String) :
+    let i := PSt.init wr cfg.pieces w0 headerBytes
+    let r := PSt.writes wr cfg i.2 ws
+    (r.2.close wr cfg).1 = some (.panic s) → i.1 = false ∨ ∃ x ∈ r.1, x.2 ≠ none := by
+  intro i r hc
+  cases hi : i.1 with
+  | false => exact Or.inl rfl
+  | true =>
+    right
+    apply Classical.byContradiction
+    intro hno
+    have hws : ∀ x ∈ r.1, x.2 = none := by
+      intro x hx
+      cases hx2 : x.2 with
+      | none => rfl
+      | some e => exact absurd ⟨x, hx, by rw [hx2]; simp⟩ hno
+    rcases init_inv wr obs hw cfg hp v w0 headerBytes with ⟨_, ha, hb0⟩ | ⟨hf, _, _⟩
+    · obtain ⟨⟨E', ha', hbd', hne'⟩, _⟩ := alive_writes_ok wr obs hw cfg hp hb hif v _ ws [] [] _ ha
+        (by rw [hb0]; simp) (fun _ => rfl) hws
+      rcases alive_close wr obs hw cfg hp hb hif v hv _ _ E' _ ha' hbd' hne' with ⟨h, _⟩ | ⟨e', he, hk, _⟩
+      · rw [hc] at h; cases h
+      · rw [hc] at he; injection he with he; subst he
+        rcases hk with hk | ⟨i', c', f', hk⟩
+        · cases hk
+        · exact hnp i' c' f' s hk
+    · rw [hi] at hf; cases hf
 
 /-! ## success means written; on failure a prefix -/
 
@@ -139,6 +253,21 @@ theorem C14_sender_success_means_written {ω : Type} (wr : ω → Bytes → Bool
       (PSt.writes wr cfg (PSt.init wr cfg.pieces w0 headerBytes).2 ws).1 = ws.map (fun p => (p.length, none)) := by
   obtain ⟨B, hB, ho, hr⟩ := run_success wr obs hw cfg hp hb hif v hv w0 headerBytes ws hi hws hc
   exact ⟨headerPacket headerBytes ++ B, by simp [oneShot, hB], by rw [ho, List.append_assoc], hr⟩
+
+/-- **`Close` returns nil ⇒ completely written** (the property's second clause,
+    with NO hypothesis on what the constructor and the `Write`s returned): the
+    constructor succeeded, every `Write` returned `(len p, nil)` and the writer
+    has accepted exactly the all-at-once output for the concatenated plaintext -/
+theorem C14_sender_close_ok_means_written {ω : Type} (wr : ω → Bytes → Bool × ω) (obs : ω → Bytes) (hw : ObsWriter wr obs)
+    (cfg : Cfg) (hp : ∀ b, (cfg.pieces b).flatten = b) (hb : 0 < cfg.bs) (hif : IndexFail cfg.pkt)
+    (v : Version) (hv : cfg.v1shape = (v == v1)) (w0 : ω) (headerBytes : Bytes) (ws : List Bytes)
+    (hc : ((PSt.writes wr cfg (PSt.init wr cfg.pieces w0 headerBytes).2 ws).2.close wr cfg).1 = none) :
+    (PSt.init wr cfg.pieces w0 headerBytes).1 = true ∧
+    ∃ M, oneShot cfg v headerBytes ws.flatten = .ok M ∧
+      obs ((PSt.writes wr cfg (PSt.init wr cfg.pieces w0 headerBytes).2 ws).2.close wr cfg).2.codec.w = obs w0 ++ M ∧
+      (PSt.writes wr cfg (PSt.init wr cfg.pieces w0 headerBytes).2 ws).1 = ws.map (fun p => (p.length, none)) := by
+  obtain ⟨hi, B, hB, ho, hr⟩ := run_close_ok wr obs hw cfg hp hb hif v hv w0 headerBytes ws hc
+  exact ⟨hi, headerPacket headerBytes ++ B, by simp [oneShot, hB], by rw [ho, List.append_assoc], hr⟩
 
 /-- **On failure: a prefix, never a corrupted packet order** (any writer):
     after the constructor, any `Write`s and `Close` — whatever failed, whatever
@@ -186,12 +315,12 @@ theorem C14_sender_close_error_kinds {ω : Type} (wr : ω → Bytes → Bool × 
 theorem C14_encrypt_success_means_written (P : Prims) (bs : Nat) (hb : 0 < bs) (pieces : Bytes → List Bytes)
     (hp : ∀ b, (pieces b).flatten = b) (v : Version) (sender : Option Bytes) (rs : List Encrypt.Recipient)
     (eph pk : Bytes) (hbytes : Bytes) (cfg : Cfg) (hs : encryptSetup P bs pieces v sender rs eph pk = .ok (hbytes, cfg))
-    (sink : Stream.Sink) (ws : List Bytes)
-    (hi : (PSt.init Wr.write cfg.pieces ({ sink := sink } : Wr) hbytes).1 = true)
-    (hws : ∀ x ∈ (PSt.writes Wr.write cfg (PSt.init Wr.write cfg.pieces ({ sink := sink } : Wr) hbytes).2 ws).1, x.2 = none)
-    (hc : ((PSt.writes Wr.write cfg (PSt.init Wr.write cfg.pieces ({ sink := sink } : Wr) hbytes).2 ws).2.close Wr.write cfg).1 = none) :
+    (sink : Stream.Sink) (part : List Nat) (ws : List Bytes)
+    (hi : (PSt.init Wr.write cfg.pieces ({ sink := sink, part := part } : Wr) hbytes).1 = true)
+    (hws : ∀ x ∈ (PSt.writes Wr.write cfg (PSt.init Wr.write cfg.pieces ({ sink := sink, part := part } : Wr) hbytes).2 ws).1, x.2 = none)
+    (hc : ((PSt.writes Wr.write cfg (PSt.init Wr.write cfg.pieces ({ sink := sink, part := part } : Wr) hbytes).2 ws).2.close Wr.write cfg).1 = none) :
     Encrypt.sealWith P bs v sender rs eph pk ws.flatten =
-      .ok ((PSt.writes Wr.write cfg (PSt.init Wr.write cfg.pieces ({ sink := sink } : Wr) hbytes).2 ws).2.close Wr.write cfg).2.codec.w.bytes := by
+      .ok ((PSt.writes Wr.write cfg (PSt.init Wr.write cfg.pieces ({ sink := sink, part := part } : Wr) hbytes).2 ws).2.close Wr.write cfg).2.codec.w.bytes := by
   have hcfg := encryptSetup_cfg P bs pieces v sender rs eph pk hbytes cfg hs
   obtain ⟨M, hM, ho, _⟩ := C14_sender_success_means_written Wr.write Wr.bytes wr_obs cfg
     (by rw [hcfg.2.1]; exact hp) (by rw [hcfg.1]; exact hb) hcfg.2.2.2 v hcfg.2.2.1 _ hbytes ws hi hws hc
@@ -203,22 +332,22 @@ theorem C14_encrypt_success_means_written (P : Prims) (bs : Nat) (hb : 0 < bs) (
 theorem C14_encrypt_failure_prefix (P : Prims) (bs : Nat) (hb : 0 < bs) (pieces : Bytes → List Bytes)
     (hp : ∀ b, (pieces b).flatten = b) (v : Version) (sender : Option Bytes) (rs : List Encrypt.Recipient)
     (eph pk : Bytes) (hbytes : Bytes) (cfg : Cfg) (hs : encryptSetup P bs pieces v sender rs eph pk = .ok (hbytes, cfg))
-    (sink : Stream.Sink) (ws : List Bytes) (M : Bytes) (hM : Encrypt.sealWith P bs v sender rs eph pk ws.flatten = .ok M) :
-    ((PSt.writes Wr.write cfg (PSt.init Wr.write cfg.pieces ({ sink := sink } : Wr) hbytes).2 ws).2.close Wr.write cfg).2.codec.w.bytes <+: M := by
+    (sink : Stream.Sink) (part : List Nat) (ws : List Bytes) (M : Bytes) (hM : Encrypt.sealWith P bs v sender rs eph pk ws.flatten = .ok M) :
+    ((PSt.writes Wr.write cfg (PSt.init Wr.write cfg.pieces ({ sink := sink, part := part } : Wr) hbytes).2 ws).2.close Wr.write cfg).2.codec.w.bytes <+: M := by
   have hcfg := encryptSetup_cfg P bs pieces v sender rs eph pk hbytes cfg hs
   obtain ⟨hb', cfg', hs', hone⟩ := (sealWith_iff_oneShot P bs pieces v sender rs eph pk ws.flatten M).1 hM
   rw [hs] at hs'
   injection hs' with hs'
   obtain ⟨rfl, rfl⟩ := Prod.mk.inj hs'
   have := C14_sender_failure_prefix Wr.write Wr.bytes wr_obs cfg (by rw [hcfg.2.1]; exact hp) (by rw [hcfg.1]; exact hb)
-    hcfg.2.2.2 v hcfg.2.2.1 ({ sink := sink } : Wr) hbytes ws M hone
+    hcfg.2.2.2 v hcfg.2.2.1 ({ sink := sink, part := part } : Wr) hbytes ws M hone
   simpa [Wr.bytes] using this
 
 /-- `NewSignStream` likewise: success ⇒ exactly `Sign.attachedWith`; always a prefix of it -/
 theorem C14_sign_written_or_prefix (P : Prims) (bs : Nat) (hb : 0 < bs) (pieces : Bytes → List Bytes)
     (hp : ∀ b, (pieces b).flatten = b) (v : Version) (signer nonce : Bytes) (hbytes : Bytes) (cfg : Cfg)
-    (hs : signSetup P bs pieces v signer nonce = .ok (hbytes, cfg)) (sink : Stream.Sink) (ws : List Bytes) :
-    let i := PSt.init Wr.write cfg.pieces ({ sink := sink } : Wr) hbytes
+    (hs : signSetup P bs pieces v signer nonce = .ok (hbytes, cfg)) (sink : Stream.Sink) (part : List Nat) (ws : List Bytes) :
+    let i := PSt.init Wr.write cfg.pieces ({ sink := sink, part := part } : Wr) hbytes
     let r := PSt.writes Wr.write cfg i.2 ws
     let c := r.2.close Wr.write cfg
     (i.1 = true → (∀ x ∈ r.1, x.2 = none) → c.1 = none →
@@ -238,15 +367,15 @@ theorem C14_sign_written_or_prefix (P : Prims) (bs : Nat) (hb : 0 < bs) (pieces 
     injection hs' with hs'
     obtain ⟨rfl, rfl⟩ := Prod.mk.inj hs'
     have := C14_sender_failure_prefix Wr.write Wr.bytes wr_obs cfg (by rw [hcfg.2.1]; exact hp) (by rw [hcfg.1]; exact hb)
-      hcfg.2.2.2 v hcfg.2.2.1 ({ sink := sink } : Wr) hbytes ws M hone
+      hcfg.2.2.2 v hcfg.2.2.1 ({ sink := sink, part := part } : Wr) hbytes ws M hone
     simpa [Wr.bytes] using this
 
 /-- `NewSigncryptSealStream` likewise -/
 theorem C14_signcrypt_written_or_prefix (P : Prims) (bs : Nat) (hb : 0 < bs) (pieces : Bytes → List Bytes)
     (hp : ∀ b, (pieces b).flatten = b) (sender : Option Bytes) (rs : List Signcrypt.Recipient) (eph pk : Bytes)
     (hbytes : Bytes) (cfg : Cfg) (hs : signcryptSetup P bs pieces sender rs eph pk = .ok (hbytes, cfg))
-    (sink : Stream.Sink) (ws : List Bytes) :
-    let i := PSt.init Wr.write cfg.pieces ({ sink := sink } : Wr) hbytes
+    (sink : Stream.Sink) (part : List Nat) (ws : List Bytes) :
+    let i := PSt.init Wr.write cfg.pieces ({ sink := sink, part := part } : Wr) hbytes
     let r := PSt.writes Wr.write cfg i.2 ws
     let c := r.2.close Wr.write cfg
     (i.1 = true → (∀ x ∈ r.1, x.2 = none) → c.1 = none →
@@ -266,7 +395,7 @@ theorem C14_signcrypt_written_or_prefix (P : Prims) (bs : Nat) (hb : 0 < bs) (pi
     injection hs' with hs'
     obtain ⟨rfl, rfl⟩ := Prod.mk.inj hs'
     have := C14_sender_failure_prefix Wr.write Wr.bytes wr_obs cfg (by rw [hcfg.2.1]; exact hp) (by rw [hcfg.1]; exact hb)
-      hcfg.2.2.2 v2 hcfg.2.2.1 ({ sink := sink } : Wr) hbytes ws M hone
+      hcfg.2.2.2 v2 hcfg.2.2.1 ({ sink := sink, part := part } : Wr) hbytes ws M hone
     simpa [Wr.bytes] using this
 
 /-- `NewSignDetachedStream`: `Write` only hashes; what reaches the writer is a
@@ -275,8 +404,8 @@ theorem C14_signcrypt_written_or_prefix (P : Prims) (bs : Nat) (hb : 0 < bs) (pi
     underlying write and always fails after one -/
 theorem C14_detached_written_or_prefix (P : Prims) (pieces : Bytes → List Bytes) (hp : ∀ b, (pieces b).flatten = b)
     (v : Version) (signer nonce : Bytes) (hbytes : Bytes) (sp : Bytes → Bytes)
-    (hs : detachedSetup P v signer nonce = .ok (hbytes, sp)) (sink : Stream.Sink) (ws : List Bytes) :
-    let i := DSt.init Wr.write pieces ({ sink := sink } : Wr) hbytes
+    (hs : detachedSetup P v signer nonce = .ok (hbytes, sp)) (sink : Stream.Sink) (part : List Nat) (ws : List Bytes) :
+    let i := DSt.init Wr.write pieces ({ sink := sink, part := part } : Wr) hbytes
     let r := DSt.writes i.2 ws
     let c := r.2.close Wr.write pieces sp
     r.1 = ws.map (fun p => (p.length, none)) ∧
@@ -285,13 +414,111 @@ theorem C14_detached_written_or_prefix (P : Prims) (pieces : Bytes → List Byte
     (c.1 = none → c.2.codec.w.faults = r.2.codec.w.faults) ∧
     (r.2.codec.failed = true → c.1 = some .ioError) := by
   intro i r c
-  obtain ⟨h1, h2⟩ := det_run Wr.write Wr.bytes wr_obs pieces hp sp ({ sink := sink } : Wr) hbytes ws
+  obtain ⟨h1, h2⟩ := det_run Wr.write Wr.bytes wr_obs pieces hp sp ({ sink := sink, part := part } : Wr) hbytes ws
   have hfl := det_close_flt Wr.write Wr.faults wr_flt pieces sp r.2
   refine ⟨(det_writes ws _).2, ⟨headerPacket hbytes ++ sp ws.flatten, ?_, ?_, ?_⟩, hfl.1, fun h => (hfl.2.1 h).1⟩
   · exact (detachedWith_iff P v signer nonce ws.flatten _).2 ⟨hbytes, sp, hs, rfl⟩
   · simpa [Wr.bytes, List.append_assoc] using h1
   · intro hi hc
     simpa [Wr.bytes, List.append_assoc] using h2 hi hc
+
+/-- **the three packet streams: `Close` returned nil ⇒ the writer holds exactly
+    the all-at-once message** (`Encrypt.sealWith` / `Sign.attachedWith` /
+    `Signcrypt.sealWith` of the concatenated plaintext) — `Close` alone, no
+    hypothesis on the other calls, any fault script -/
+theorem C14_encrypt_close_ok_means_written (P : Prims) (bs : Nat) (hb : 0 < bs) (pieces : Bytes → List Bytes)
+    (hp : ∀ b, (pieces b).flatten = b) (v : Version) (sender : Option Bytes) (rs : List Encrypt.Recipient)
+    (eph pk : Bytes) (hbytes : Bytes) (cfg : Cfg) (hs : encryptSetup P bs pieces v sender rs eph pk = .ok (hbytes, cfg))
+    (sink : Stream.Sink) (part : List Nat) (ws : List Bytes) :
+    let i := PSt.init Wr.write cfg.pieces ({ sink := sink, part := part } : Wr) hbytes
+    let r := PSt.writes Wr.write cfg i.2 ws
+    let c := r.2.close Wr.write cfg
+    c.1 = none → i.1 = true ∧ r.1 = ws.map (fun p => (p.length, none)) ∧
+      Encrypt.sealWith P bs v sender rs eph pk ws.flatten = .ok c.2.codec.w.bytes := by
+  intro i r c hc
+  have hcfg := encryptSetup_cfg P bs pieces v sender rs eph pk hbytes cfg hs
+  obtain ⟨hi, M, hM, ho, hr⟩ := C14_sender_close_ok_means_written Wr.write Wr.bytes wr_obs cfg
+    (by rw [hcfg.2.1]; exact hp) (by rw [hcfg.1]; exact hb) hcfg.2.2.2 v hcfg.2.2.1 _ hbytes ws hc
+  refine ⟨hi, hr, ?_⟩
+  show _ = Except.ok (Wr.bytes _)
+  rw [ho]
+  exact (sealWith_iff_oneShot P bs pieces v sender rs eph pk ws.flatten _).2
+    ⟨hbytes, cfg, hs, by simpa [Wr.bytes] using hM⟩
+
+theorem C14_sign_close_ok_means_written (P : Prims) (bs : Nat) (hb : 0 < bs) (pieces : Bytes → List Bytes)
+    (hp : ∀ b, (pieces b).flatten = b) (v : Version) (signer nonce : Bytes) (hbytes : Bytes) (cfg : Cfg)
+    (hs : signSetup P bs pieces v signer nonce = .ok (hbytes, cfg)) (sink : Stream.Sink) (part : List Nat) (ws : List Bytes) :
+    let i := PSt.init Wr.write cfg.pieces ({ sink := sink, part := part } : Wr) hbytes
+    let r := PSt.writes Wr.write cfg i.2 ws
+    let c := r.2.close Wr.write cfg
+    c.1 = none → i.1 = true ∧ r.1 = ws.map (fun p => (p.length, none)) ∧
+      Sign.attachedWith P bs v signer nonce ws.flatten = .ok c.2.codec.w.bytes := by
+  intro i r c hc
+  have hcfg := signSetup_cfg P bs pieces v signer nonce hbytes cfg hs
+  obtain ⟨hi, M, hM, ho, hr⟩ := C14_sender_close_ok_means_written Wr.write Wr.bytes wr_obs cfg
+    (by rw [hcfg.2.1]; exact hp) (by rw [hcfg.1]; exact hb) hcfg.2.2.2 v hcfg.2.2.1 _ hbytes ws hc
+  refine ⟨hi, hr, ?_⟩
+  show _ = Except.ok (Wr.bytes _)
+  rw [ho]
+  exact (attachedWith_iff_oneShot P bs pieces v signer nonce ws.flatten _).2
+    ⟨hbytes, cfg, hs, by simpa [Wr.bytes] using hM⟩
+
+theorem C14_signcrypt_close_ok_means_written (P : Prims) (bs : Nat) (hb : 0 < bs) (pieces : Bytes → List Bytes)
+    (hp : ∀ b, (pieces b).flatten = b) (sender : Option Bytes) (rs : List Signcrypt.Recipient) (eph pk : Bytes)
+    (hbytes : Bytes) (cfg : Cfg) (hs : signcryptSetup P bs pieces sender rs eph pk = .ok (hbytes, cfg))
+    (sink : Stream.Sink) (part : List Nat) (ws : List Bytes) :
+    let i := PSt.init Wr.write cfg.pieces ({ sink := sink, part := part } : Wr) hbytes
+    let r := PSt.writes Wr.write cfg i.2 ws
+    let c := r.2.close Wr.write cfg
+    c.1 = none → i.1 = true ∧ r.1 = ws.map (fun p => (p.length, none)) ∧
+      Signcrypt.sealWith P bs sender rs eph pk ws.flatten = .ok c.2.codec.w.bytes := by
+  intro i r c hc
+  have hcfg := signcryptSetup_cfg P bs pieces sender rs eph pk hbytes cfg hs
+  obtain ⟨hi, M, hM, ho, hr⟩ := C14_sender_close_ok_means_written Wr.write Wr.bytes wr_obs cfg
+    (by rw [hcfg.2.1]; exact hp) (by rw [hcfg.1]; exact hb) hcfg.2.2.2 v2 hcfg.2.2.1 _ hbytes ws hc
+  refine ⟨hi, hr, ?_⟩
+  show _ = Except.ok (Wr.bytes _)
+  rw [ho]
+  exact (scSealWith_iff_oneShot P bs pieces sender rs eph pk ws.flatten _).2
+    ⟨hbytes, cfg, hs, by simpa [Wr.bytes] using hM⟩
+
+/-- the constructor of the detached-signature stream that returns a stream has
+    seen no failing underlying write (the `DSt.init` analogue of
+    `C14_sender_ctor_reports`); one that fails leaves the encoder failed -/
+theorem C14_detached_ctor_reports {ω : Type} (wr : ω → Bytes → Bool × ω) (flt : ω → Nat) (hw : FltWriter wr flt)
+    (pieces : Bytes → List Bytes) (w0 : ω) (headerBytes : Bytes) :
+    ((DSt.init wr pieces w0 headerBytes).1 = true → flt (DSt.init wr pieces w0 headerBytes).2.codec.w = flt w0) ∧
+    ((DSt.init wr pieces w0 headerBytes).1 = false → (DSt.init wr pieces w0 headerBytes).2.codec.failed = true) :=
+  det_init_flt wr flt hw pieces w0 headerBytes
+
+/-- **whole run of the binary DETACHED stream** (`NewSignDetachedStream`,
+    scripted writer): if ANY underlying write failed — in the constructor or in
+    `Close`; `Write` only feeds the hash — then the constructor failed or `Close`
+    RETURNED the writer's error (this stream has no panic); and `Close` = nil ⇒
+    the constructor succeeded, no write failed, the writer holds exactly
+    `Sign.detachedWith` of everything written -/
+theorem C14_detached_run_fault_reported (P : Prims) (pieces : Bytes → List Bytes) (hp : ∀ b, (pieces b).flatten = b)
+    (v : Version) (signer nonce : Bytes) (hbytes : Bytes) (sp : Bytes → Bytes)
+    (hs : detachedSetup P v signer nonce = .ok (hbytes, sp)) (sink : Stream.Sink) (part : List Nat) (ws : List Bytes) :
+    let i := DSt.init Wr.write pieces ({ sink := sink, part := part } : Wr) hbytes
+    let c := (DSt.writes i.2 ws).2.close Wr.write pieces sp
+    (c.2.codec.w.faults ≠ 0 → i.1 = false ∨ c.1 = some .ioError) ∧
+    (c.1 = none → i.1 = true ∧ c.2.codec.w.faults = 0 ∧
+      Sign.detachedWith P v signer nonce ws.flatten = .ok c.2.codec.w.bytes) := by
+  intro i c
+  obtain ⟨h1, h2⟩ := det_run_fault Wr.write Wr.faults wr_flt pieces sp ({ sink := sink, part := part } : Wr) hbytes ws
+  refine ⟨h1, fun hc => ?_⟩
+  have hi := h2 hc
+  refine ⟨hi, ?_, ?_⟩
+  · apply Classical.byContradiction
+    intro hne
+    rcases h1 hne with h | h
+    · rw [hi] at h; cases h
+    · rw [hc] at h; cases h
+  · have := (det_run Wr.write Wr.bytes wr_obs pieces hp sp ({ sink := sink, part := part } : Wr) hbytes ws).2 hi hc
+    show _ = Except.ok (Wr.bytes _)
+    rw [this]
+    exact (detachedWith_iff P v signer nonce ws.flatten _).2 ⟨hbytes, sp, hs, by simp [Wr.bytes]⟩
 
 /-! ## the armored compositions (armor62_encrypt.go `closeForwarder`, armor62_sign.go,
      armor62_signcrypt.go; armor.go `armorEncoderStream.Write` / `spaceAndOutputBuffer` / `Close`):
@@ -353,10 +580,12 @@ theorem C14_armored_after_fault (cfg : Cfg) (st : PSt FArm) (p : Bytes) :
 /-- **whole armored run: `Close` never reports success for a message that was
     not completely written** — if ANY underlying write failed (armor header,
     packet-stream constructor, any `Write`, `Close` of either layer), then a
-    constructor failed or `Close` returns an error -/
-theorem C14_armored_run_fault_reported (cfg : Cfg) (typ : Int) (brand : Bytes) (sink : Stream.Sink)
+    constructor failed or `Close` does not return nil (returns an error or
+    PANICS, as for the binary streams; the next theorem names the call that
+    RETURNS the error) -/
+theorem C14_armored_run_fault_reported (cfg : Cfg) (typ : Int) (brand : Bytes) (sink : Stream.Sink) (part : List Nat)
     (headerBytes : Bytes) (ws : List Bytes) :
-    let a := FArm.init62 typ brand ({ sink := sink } : Wr)
+    let a := FArm.init62 typ brand ({ sink := sink, part := part } : Wr)
     let i := PSt.init FArm.write cfg.pieces a.2 headerBytes
     let c := armoredClose cfg (PSt.writes FArm.write cfg i.2 ws).2
     c.2.codec.w.w.faults ≠ 0 → a.1 = false ∨ c.1 ≠ none := by
@@ -367,7 +596,7 @@ theorem C14_armored_run_fault_reported (cfg : Cfg) (typ : Int) (brand : Bytes) (
     have hi := faultSeen_init FArm.write (fun a => a.w.faults) farm_flt cfg.pieces a.2 headerBytes
     have hw := faultSeen_writes FArm.write (fun a => a.w.faults) farm_flt cfg (a.2.w.faults) ws _ hi.1
     have ha0 : a.2.w.faults = (if a.1 then 0 else 1) := by
-      have := wr_write_faults ({ sink := sink } : Wr) (Armor.header typ brand ++ [Armor.period, Armor.space])
+      have := wr_write_faults ({ sink := sink, part := part } : Wr) (Armor.header typ brand ++ [Armor.period, Armor.space])
       simpa [a, FArm.init62, FArm.init] using this
     cases hA : a.1 with
     | false => rfl
@@ -379,6 +608,29 @@ theorem C14_armored_run_fault_reported (cfg : Cfg) (typ : Int) (brand : Bytes) (
         rw [ha0, ← hsame]; exact hne)
       exact absurd hc ((armoredClose_spec cfg _).2 hfailed).1
   · exact Or.inr hc
+
+/-- **…and the fault is RETURNED by the call in which it happens**: the armor
+    constructor failed, or the packet stream's constructor failed, or a `Write`
+    returned the writer's error, or `closeForwarder.Close` returned it -/
+theorem C14_armored_run_fault_returns_io_error (cfg : Cfg) (typ : Int) (brand : Bytes) (sink : Stream.Sink) (part : List Nat)
+    (headerBytes : Bytes) (ws : List Bytes) :
+    let a := FArm.init62 typ brand ({ sink := sink, part := part } : Wr)
+    let i := PSt.init FArm.write cfg.pieces a.2 headerBytes
+    let r := PSt.writes FArm.write cfg i.2 ws
+    let c := armoredClose cfg r.2
+    c.2.codec.w.w.faults ≠ 0 →
+      a.1 = false ∨ i.1 = false ∨ (∃ x ∈ r.1, x.2 = some .ioError) ∨ c.1 = some .ioError := by
+  intro a i r c hne
+  have ha0 : a.2.w.faults = (if a.1 then 0 else 1) := by
+    have := wr_write_faults ({ sink := sink, part := part } : Wr) (Armor.header typ brand ++ [Armor.period, Armor.space])
+    simpa [a, FArm.init62, FArm.init] using this
+  cases hA : a.1 with
+  | false => exact Or.inl rfl
+  | true =>
+    right
+    rw [hA] at ha0
+    simp only [if_true] at ha0
+    exact armored_run_fault_io cfg a.2 headerBytes ws (by rw [ha0]; exact hne)
 
 /-! ## bounded buffering -/
 
@@ -435,6 +687,38 @@ example :
     let i := PSt.init Wr.write (toyCfg false true).pieces ({} : Wr) [7]
     let c1 := i.2.close Wr.write (toyCfg false true)
     (c1.1, (c1.2.close Wr.write (toyCfg false true)).1) = (none, some (.panic "assertEncodedChunkState")) := by decide
+-- what is NOT sticky (the code has it so; mirrored): `Close` neither looks at nor sets `err` — after a
+-- FAILED `Close` (dead encoder, `err = nil`; here the 4th underlying write, in `Close`, fails) a small
+-- `Write` that emits no block returns (n, nil); one that emits a block fails and records
+example :
+    let i := PSt.init Wr.write (toyCfg false true).pieces ({ sink := [false, false, false, true] } : Wr) [7]
+    let c := i.2.close Wr.write (toyCfg false true)
+    (c.1, (c.2.write Wr.write (toyCfg false true) [1]).2.1, (c.2.write Wr.write (toyCfg false true) [1, 2, 3]).2.1) =
+      (some .ioError, none, some .ioError) := by decide
+-- the hypotheses of `C14_sender_run_fault_returns_io_error` / `_close_panics_only_after_error` are met by
+-- the panic run above: the Write returned the io error, then Close panicked
+example : (toyRun (toyCfg false true) [false, false, false, true] [[1, 2, 3, 4, 5, 6, 7]]).2.1 = [(0, some .ioError)] := by
+  decide
+/-- one underlying write per PACKET (so that a failing write can take a part of it) -/
+def toyCfgW (v1shape hasErr : Bool) : Cfg := { toyCfg v1shape hasErr with pieces := fun b => [b] }
+
+def toyRunP (cfg : Cfg) (sink : Stream.Sink) (part : List Nat) (ws : List Bytes) :
+    Bool × List (Nat × Option Err) × Option Err × Bytes :=
+  let i := PSt.init Wr.write cfg.pieces ({ sink := sink, part := part } : Wr) [7]
+  let r := PSt.writes Wr.write cfg i.2 ws
+  let c := r.2.close Wr.write cfg
+  (i.1, r.1, c.1, c.2.codec.w.bytes)
+
+-- a FAILING write that ACCEPTED A PART of its slice (io.Writer: (n, err), 0 < n < len): the 2nd
+-- underlying write (packet 0 = 00 00 01 02) takes 3 bytes and fails: the Write reports it, the
+-- stream is dead, the writer holds header ‖ those 3 bytes — still a prefix of the fault-free output
+example : toyRunP (toyCfgW false true) [false, true] [3] [[1, 2, 3], [4, 5]] =
+    (true, [(0, some .ioError), (0, some .ioError)], some .ioError, [0xc4, 1, 7, 0, 0, 1]) := by decide
+example : toyRunP (toyCfgW false true) [] [] [[1, 2, 3], [4, 5]] =
+    (true, [(3, none), (2, none)], none, [0xc4, 1, 7, 0, 0, 1, 2, 1, 0, 3, 4, 2, 1, 5]) := by decide
+-- it took the WHOLE slice and failed all the same (n = len, err): reported, dead, prefix
+example : toyRunP (toyCfgW false true) [false, true] [1000] [[1, 2, 3], [4, 5]] =
+    (true, [(0, some .ioError), (0, some .ioError)], some .ioError, [0xc4, 1, 7, 0, 0, 1, 2]) := by decide
 -- go-codec's write pattern on a header-like value: bin8 = two 1-byte writes and the content
 example : codecPieces [0xc4, 3, 9, 9, 9, 0x93, 0xc3, 0xc4, 0] = [[0xc4], [3], [9, 9, 9], [0x93], [0xc3], [0xc4], [0]] := by
   decide
